@@ -64,7 +64,7 @@ def case_stream(tier: str, seed: int):
             i += 1
     # -- 6 nodes: a seed-dependent arithmetic slice of all 3 781 503 labelled DAGs
     r = rng.sub("six")
-    stride, limit = (11, 350000) if tier == "thorough" else (2521, 1500)
+    stride, limit = (31, 130000) if tier == "thorough" else (2521, 1500)
     for masks in gg.sample_dags6(r.randrange(stride), stride, limit):
         yield "dag6", gg.dag_case(r, masks, _kind_cycle(i), r.choice(["lex", "rev", "shuf"]), "ops")
         i += 1
@@ -76,7 +76,7 @@ def case_stream(tier: str, seed: int):
             i += 1
     # -- random DAGs up to 40 nodes, with and without parallel edges
     r = rng.sub("random")
-    for k in range(20000 if tier == "thorough" else 500):
+    for k in range(6000 if tier == "thorough" else 500):
         yield "random-dag", gg.random_dag_case(r, _kind_cycle(i), 40, parallel=(k % 10 == 9))
         i += 1
     # -- random cyclic graphs
@@ -86,7 +86,7 @@ def case_stream(tier: str, seed: int):
         i += 1
     # -- API histories with remove / re-add / errors
     r = rng.sub("mut")
-    for _ in range(4000 if tier == "thorough" else 300):
+    for _ in range(3000 if tier == "thorough" else 300):
         c = gg.mutation_case(r, _kind_cycle(i))
         yield "mutation", gg.decorate(r, c, range(8), jobcost=False)
         i += 1
@@ -98,12 +98,14 @@ def case_stream(tier: str, seed: int):
 
 
 def _impl_one(case):
-    return gi.run_case(case)
+    """Worker: run the real code on one case and judge its answers with the oracle."""
+    rep = gi.run_case(case)
+    return rep, go.check_case(case, rep)
 
 
 def run_impl(cases, pool):
     if pool is None:
-        return [gi.run_case(c) for c in cases]
+        return [_impl_one(c) for c in cases]
     return pool.map(_impl_one, cases, chunksize=200)
 
 
@@ -140,10 +142,11 @@ class Collector:
     def __init__(self, chk):
         self.chk = chk
         self.fail: dict[str, list] = {}  # signature -> [count, smallest case, detail]
+        self.reported: set = set()
         self.disagree: list = []
 
-    def oracle(self, case, reply):
-        for sig, detail in go.check_case(case, reply):
+    def oracle(self, case, verdicts):
+        for sig, detail in verdicts:
             e = self.fail.setdefault(sig, [0, case, detail])
             e[0] += 1
             if len(json.dumps(case)) < len(json.dumps(e[1])):
@@ -155,7 +158,8 @@ class Collector:
             if self.chk.matches_known(sig):
                 for _ in range(count):
                     self.chk.violation(sig, {})
-            else:
+            elif sig not in self.reported:
+                self.reported.add(sig)
                 self.chk.violation(sig, {"case": case, "detail": detail, "occurrences": count}, found_input=True)
         self.fail = {}
 
@@ -187,7 +191,7 @@ def process(chk, col, fam_cases, use_driver, pool):
             if isinstance(box[k], BaseException):
                 raise box[k]
         model = box[0] + box[1]
-    for idx, ((fam, case), rep) in enumerate(zip(fam_cases, impl)):
+    for idx, ((fam, case), (rep, verdicts)) in enumerate(zip(fam_cases, impl)):
         chk.count(f"family:{fam}")
         chk.count(f"kind:{case['kind']}")
         for op, r in zip(case["ops"], rep.get("res", [])):
@@ -197,7 +201,7 @@ def process(chk, col, fam_cases, use_driver, pool):
                 chk.count("topo:" + (t["err"] if isinstance(t, dict) else "ok"))
             elif op["op"] in ("add_child", "remove"):
                 chk.count(f"op:{op['op']}:" + (r["err"] if isinstance(r, dict) else "ok"))
-        col.oracle(case, rep)
+        col.oracle(case, verdicts)
         if model is not None:
             chk.traces_validated += 1
             m = model[idx]
@@ -250,8 +254,8 @@ def run(chk: common.Check):
                 for k in range(500):
                     extra.append(("search-mutation", gg.mutation_case(rng, gg.PLAIN_KINDS[k % 5])))
                 reps = run_impl([c for _, c in extra], pool)
-                for (_, c), r in zip(extra, reps):
-                    col.oracle(c, r)
+                for (_, c), (_r, verdicts) in zip(extra, reps):
+                    col.oracle(c, verdicts)
                 col.report()
 
             common.broken_obligation(chk, problems, search)
@@ -261,13 +265,16 @@ def run(chk: common.Check):
         pool.close()
         pool.join()
     chk.extra["suite_s"] = round(time.time() - t0, 1)
-    chk.exhaustive = True
+    # the <=5-node DAG families and the <=3-node digraphs are enumerated completely; the run as a
+    # whole also contains sampled families, so the global flag stays false
+    chk.exhaustive = False
+    chk.extra["exhaustive_families"] = ["exh-dag0..5 (all 29854 labelled DAGs with <= 5 nodes)", "digraph1..3 (all 530 digraphs with <= 3 nodes)", "ord-dag2..4"] + (["ord-dag5"] if chk.tier == "thorough" else [])
     chk.rule = (
         "corpus of past failures; EVERY labelled DAG with <= 5 nodes (label = dict position, so every insertion "
         "order that changes dict order is a distinct case; 1+1+3+25+543+29281) built by add_node/add_child with "
         "ascending child order, the same DAGs with reversed / shuffled edge order and through Graph(nodes=mapping) "
         "(all for <= 4 nodes; quick: 1500 sampled, thorough: all 5-node DAGs twice more); an arithmetic slice of the "
-        "3 781 503 labelled 6-node DAGs (quick 1500, thorough ~344000; offset from the seed); every digraph with <= 3 "
+        "3 781 503 labelled 6-node DAGs (quick 1500, thorough ~122000; offset from the seed); every digraph with <= 3 "
         "nodes incl. self loops; random DAGs <= 40 nodes (every 10th with parallel edges); random cyclic graphs; "
         "random API histories with remove/re-add/errors and a query after every mutation.  Node labels rotate over "
         "int (1-based), int (0 falsy), str ('' falsy), tuple (() falsy), identity-hashed objects, real Task in a real "
